@@ -32,6 +32,9 @@ type InstCfg struct {
 	// Junk: every block, undo and Verify(remember) hands this instance its proof with one trailing
 	// unused proof hash (an accepted encoding, C05).
 	Junk bool
+	// FlagOff (Pollard, full MapPollard): every added leaf is handed over with Remember == false; a
+	// full forest tracks everything regardless of the flag.
+	FlagOff bool
 }
 
 func (c InstCfg) Name() string {
@@ -42,6 +45,10 @@ func (c InstCfg) Name() string {
 	if c.Junk {
 		c.Junk = false
 		return c.Name() + "[trailing unused proof hash]"
+	}
+	if c.FlagOff {
+		c.FlagOff = false
+		return c.Name() + "[leaves added with Remember=false]"
 	}
 	if c.NoRT {
 		c.NoRT = false
@@ -311,7 +318,7 @@ func (f *HistFamily) apply(x *Exec, insts []*inst, md *histModel, op Op) bool {
 					}
 				}
 				base := md.s.N()
-				leaves := leavesFor(base, op.Adds, func(i int) bool { return in.remembers(base + i) })
+				leaves := leavesFor(base, op.Adds, func(i int) bool { return in.remembers(base+i) && !in.cfg.FlagOff })
 				d, p := in.order(dh, proof)
 				err = x.Modify(name, in.acc, leaves, d, p)
 			}
